@@ -61,6 +61,14 @@ fn expr(v: &Value) -> Expression {
         "var" => Expression::Variable(Variable::new_unchecked(v["name"].as_str().unwrap())),
         "const" => {
             let t = json_term(&v["term"]);
+            // "big": the constant c (a canonical xsd:integer) is written (c + B) - B with B beyond 64 bits: the same integer in exact
+            // arithmetic (what the model computes with), but a value that went through the engine's arbitrary-precision path
+            if let Some(big) = v.get("big").and_then(|b| b.as_str()) {
+                let c: i128 = sophia_api::term::Term::lexical_form(&t).expect("big const").parse().expect("big const is an integer");
+                let b: i128 = big.parse().expect("big");
+                let int = |x: i128| Box::new(Expression::Literal(Literal::new_typed_literal(x.to_string(), nn(&format!("{XSD}integer")))));
+                return Expression::Subtract(int(c + b), int(b));
+            }
             match &t {
                 SimpleTerm::Iri(i) => Expression::NamedNode(nn(i.as_str())),
                 _ => Expression::Literal(lit_of(&t)),
@@ -184,11 +192,22 @@ fn rand_tp(rng: &mut Rng) -> Value {
     let p = if rng.chance(1, 4) { json!({"var": *rng.pick(&VARS[..3])}) } else { json!({"term": term_json(rng.pick(&preds))}) };
     json!([rand_pos(rng, false), p, rand_pos(rng, true)])
 }
+/// integers beyond i64 / u64 (and one negative): operands that force the engine's BigInt representation
+const BIGS: [&str; 4] = ["100000000000000000000", "-100000000000000000000", "9223372036854775808", "18446744073709551616"];
+fn canonical_int(t: &ST) -> bool {
+    match t {
+        SimpleTerm::LiteralDatatype(l, dt) => dt.as_str() == format!("{XSD}integer") && l.parse::<i64>().map(|x| x.to_string() == l.as_ref()).unwrap_or(false),
+        _ => false,
+    }
+}
 fn rand_expr(rng: &mut Rng, depth: usize) -> Value {
     let (iris, _, lits) = data_terms();
     let leaf = |rng: &mut Rng| match rng.below(4) {
         0 | 1 => json!({"op":"var","name": *rng.pick(&VARS)}),
-        2 => json!({"op":"const","term": term_json(rng.pick(&lits))}),
+        2 => {
+            let t = rng.pick(&lits);
+            if canonical_int(t) && rng.chance(1, 3) { json!({"op":"const","term": term_json(t),"big": *rng.pick(&BIGS)}) } else { json!({"op":"const","term": term_json(t)}) }
+        }
         _ => json!({"op":"const","term": term_json(rng.pick(&iris))}),
     };
     if depth >= 2 {
@@ -356,6 +375,44 @@ pub fn main(args: &[String]) {
                 for b in &nums {
                     for op in ["eq", "ne", "lt", "gt", "le", "ge"] {
                         apps.push(json!({"op":op,"a":c(a),"b":c(b)}));
+                    }
+                }
+            }
+        }
+        // small integers that went through arbitrary-precision arithmetic ((c + B) - B) against plain numbers: comparisons,
+        // arithmetic and the term functions must not tell them from the constant c
+        {
+            let small = ["-3", "0", "1", "2", "10"];
+            let others: Vec<Value> = ["-3", "0", "1", "2", "10"].iter().map(|l| term_json(&lit_dt(l, &format!("{XSD}integer")))).collect();
+            // the numeric tower of SparqlNum.tla knows the integers 0 and 1: those are compared with every literal of its universe
+            let tower: Vec<Value> = arg(args, "--num-universe")
+                .map(|path| serde_json::from_str::<Vec<Value>>(&std::fs::read_to_string(path).expect("num universe")).expect("num universe json"))
+                .unwrap_or_default()
+                .iter().map(|v| term_json(&lit_dt(v["lex"].as_str().unwrap(), v["dt"].as_str().unwrap()))).collect();
+            for (k, a) in small.iter().enumerate() {
+                let big = BIGS[k % BIGS.len()];
+                let ca = json!({"op":"const","term": term_json(&lit_dt(a, &format!("{XSD}integer"))),"big":big});
+                for op in ["str", "datatype", "isnumeric", "not"] {
+                    apps.push(json!({"op":op,"a":ca}));
+                }
+                for b in &others {
+                    for op in ["eq", "ne", "lt", "gt", "le", "ge", "sameterm", "add", "sub", "mul"] {
+                        apps.push(json!({"op":op,"a":ca,"b":c(b)}));
+                        apps.push(json!({"op":op,"a":c(b),"b":ca}));
+                    }
+                }
+                if *a == "0" || *a == "1" {
+                    for b in &tower {
+                        for op in ["eq", "ne", "lt", "gt", "le", "ge"] {
+                            apps.push(json!({"op":op,"a":ca,"b":c(b)}));
+                            apps.push(json!({"op":op,"a":c(b),"b":ca}));
+                        }
+                    }
+                }
+                for (j, b) in small.iter().enumerate() {
+                    let cb = json!({"op":"const","term": term_json(&lit_dt(b, &format!("{XSD}integer"))),"big":BIGS[(j + 1) % BIGS.len()]});
+                    for op in ["eq", "lt", "le", "sub", "sameterm"] {
+                        apps.push(json!({"op":op,"a":ca,"b":cb}));
                     }
                 }
             }
